@@ -344,17 +344,17 @@ func (c cfgSub) cpy(ctx context) value {
 	arr := c.c.fields.array()
 	fields := &fields{}
 
+	// the copies are named by the place they are stored at: an entry can be
+	// a Config that remembers the name it has in another configuration
 	for name, f := range dict {
-		ctx := f.Context()
-		v := f.cpy(context{field: ctx.field, parent: newC})
+		v := f.cpy(context{field: name, parent: newC})
 		fields.set(name, v)
 	}
 
 	if arr != nil {
 		fields.a = make([]value, len(arr))
 		for i, f := range arr {
-			ctx := f.Context()
-			v := f.cpy(context{field: ctx.field, parent: newC})
+			v := f.cpy(context{field: fmt.Sprintf("%d", i), parent: newC})
 			fields.setAt(i, newC, v)
 		}
 	}
